@@ -5,6 +5,7 @@ CONSTANTS
  Pats <- AllPats
  OptOuts <- AllOptOuts
  Orders <- Order0
+ Rels <- AllRels
  Dump = TRUE
 INIT Init
 NEXT Next
